@@ -72,6 +72,9 @@ func main() {
 	if !c.Quick() {
 		jobs = append(jobs, job{"indexroll", 0, false})
 	}
+	for i := 0; i < c.Pick(2, 8); i++ { // backward reset of the append position across an index page boundary, then appends
+		jobs = append(jobs, job{"backreset", i, false})
+	}
 	for i := 0; i < c.Pick(3, 12); i++ { // GC releasing acknowledged pages while appends roll over to a new index page
 		jobs = append(jobs, job{"gcroll", i, false})
 	}
